@@ -33,6 +33,19 @@ CLAIMED = {
     },
 }
 
+CLAIMED['C13'] = {
+    'text': 'Static: field coverage of the Serialize/Deserialize impls of Tds, Cell, Vertex and Point against their ADT '
+            'field lists (a field that is neither written nor in the reasoned skip table is reported by name), writer '
+            'names = reader names, and must-pass-through: every Ok exit of the Tds deserialiser lies behind the '
+            'success edges of the neighbour / incident-cell rebuild and of a call covering all Level-2 and Level-1 '
+            'validators. Decides the "nothing silently dropped" and "inconsistent input is rejected" clauses, not '
+            'round-trip equality.',
+    'note': 'Trusted: rustc MIR; serde derive/expansion emits serialize_field calls with literal names; slotmap '
+            'serde for key gaps. Skip table with reasons in engine/rules/c13.py.',
+    'technique': 'field-coverage cross-check + must-pass-through (dominance) over rustc MIR',
+    'design': '§5 C13',
+}
+
 NOT_APPLICABLE = {
     'C04': 'verdict is the sign of floating-point in-sphere determinants vs exact arithmetic (numerical); the only structural handle is a delegation shape that a correct re-implementation would break',
     'C10': 'correctness of point location is a sign pattern of orientation determinants along a walk (geometric); loop bound is covered under C19',
